@@ -230,6 +230,17 @@ func c11DeliverEvents(e *Env, pos int, mid []rec.Ev, cfg *configuration.Configur
 			rec.Ev{K: rec.KArrayChunk, U: 9, B: false}, rec.Ev{K: rec.KArrayData, S: []byte("other")}, rec.Ev{K: rec.KArrayData, S: []byte("-key")},
 			rec.Ev{K: rec.KTrue},
 			rec.Ev{K: rec.KMarker, S: []byte("mb")})
+	case 5:
+		// a marked key whose marker is USED: its own value refers to it. The
+		// marker must exist whatever form the key was delivered in.
+		evs = append(evs, rec.Ev{K: rec.KMap}, rec.Ev{K: rec.KMarker, S: []byte("mb")})
+	case 6:
+		// two keys marked with the SAME identifier (the first delivered whole):
+		// never valid, whatever form the second key is delivered in
+		evs = append(evs, rec.Ev{K: rec.KMap},
+			rec.Ev{K: rec.KMarker, S: []byte("mb")}, rec.Ev{K: rec.KArray, AT: events.ArrayTypeString, U: 9, S: []byte("other-key")},
+			rec.Ev{K: rec.KTrue},
+			rec.Ev{K: rec.KMarker, S: []byte("mb")})
 	}
 	evs = append(evs, mid...)
 	switch pos {
@@ -239,8 +250,12 @@ func c11DeliverEvents(e *Env, pos int, mid []rec.Ev, cfg *configuration.Configur
 		evs = append(evs, rec.Ev{K: rec.KEndContainer})
 	case 3:
 		evs = append(evs, rec.Ev{K: rec.KNull}, rec.Ev{K: rec.KEndContainer})
-	case 4:
+	case 4, 6:
 		evs = append(evs, rec.Ev{K: rec.KNull},
+			rec.Ev{K: rec.KArray, AT: events.ArrayTypeString, U: 5, S: []byte("plain")}, rec.Ev{K: rec.KFalse},
+			rec.Ev{K: rec.KEndContainer})
+	case 5:
+		evs = append(evs, rec.Ev{K: rec.KReferenceLocal, S: []byte("mb")},
 			rec.Ev{K: rec.KArray, AT: events.ArrayTypeString, U: 5, S: []byte("plain")}, rec.Ev{K: rec.KFalse},
 			rec.Ev{K: rec.KEndContainer})
 	}
@@ -253,17 +268,18 @@ func c11DeliverEvents(e *Env, pos int, mid []rec.Ev, cfg *configuration.Configur
 	return err == nil && p == nil, rc.Evs, p
 }
 
-var c11Positions = []string{"top-level", "list element", "map value", "map key", "marked map key after another marked chunked key"}
+var c11Positions = []string{"top-level", "list element", "map value", "map key", "marked map key after another marked chunked key",
+	"marked map key whose value refers to the marker", "marked map key after a key marked with the same identifier"}
 
 func runC11(e *Env) Outcome {
 	t := e.T
 	cfg := configurationDefault
 	a := drawC11Array(t)
-	pos := t.Intn("position", 5)
+	pos := t.Intn("position", 7)
 	if pos >= 3 && !(a.Kind == rec.KArrayBegin && (a.AT == events.ArrayTypeString || a.AT == events.ArrayTypeResourceID)) {
 		pos = 1
 	}
-	if pos == 4 && (string(a.Payload) == "other-key" || string(a.Payload) == "plain" || len(a.Payload) == 0) {
+	if pos >= 4 && (string(a.Payload) == "other-key" || string(a.Payload) == "plain" || len(a.Payload) == 0) {
 		pos = 3 // would be a duplicate (or empty) key for reasons of its own
 	}
 	sc := &c11Scenario{Array: describeArray(a), Payload: fmt.Sprintf("%x", a.Payload), Position: c11Positions[pos]}
@@ -274,6 +290,9 @@ func runC11(e *Env) Outcome {
 	check := func(steps []arrayStep, fault string) bool { return checkArr(a, steps, fault) }
 	checkArr = func(a gen.Array, steps []arrayStep, fault string) bool {
 		want, why := referenceAccepts(a, steps)
+		if pos == 6 && want {
+			want, why = false, "the marker identifier is already in use"
+		}
 		got, fwd, p := c11Deliver(e, a, pos, steps, cfg)
 		nontrivial := fault != "" || len(steps) > 2
 		e.Seen(nontrivial, sig, fmt.Sprint(steps), fault)
@@ -286,6 +305,7 @@ func runC11(e *Env) Outcome {
 			feat["fault:"+fault] = true
 		}
 		feat["string-like"] = stringLike(a)
+		feat["marked-key"] = pos >= 4
 		feat["split-in-char"] = splitsInsideChar(a, steps)
 		feat["multi-chunk"] = countChunks(steps) > 1
 		feat["zero-length-chunk"] = hasZeroChunk(steps)
@@ -325,7 +345,8 @@ func runC11(e *Env) Outcome {
 				}
 			}
 			if pos == 4 {
-				// the other marked key's own data events come first
+				// the other marked key's own data events come first (in position
+				// 6 the other key is a whole-array event: no data events)
 				payload = []byte(strings.TrimPrefix(string(payload), "other-key"))
 			}
 			var delivered []byte
@@ -491,6 +512,9 @@ func runC11(e *Env) Outcome {
 			break
 		}
 		want, why := referenceAccepts(arr, stepsFromChunking(arr, gen.OneChunk(arr)))
+		if pos == 6 && want {
+			want, why = false, "the marker identifier is already in use"
+		}
 		whole := gen.WholeArray(arr)
 		if i == 2 && whole[0].K == rec.KArray && stringLike(arr) {
 			whole[0].K = rec.KStringlikeArray
